@@ -556,11 +556,12 @@ impl rustc_driver::Callbacks for Cb {
                     }
                     let gens: Vec<String> = tcx.generics_of(did).own_params.iter().map(|p| esc(p.name.as_str())).collect();
                     adts.push(format!(
-                        "{{\"path\":{},\"kind\":{},\"span\":{},\"vis\":{},\"generics\":[{}],\"variants\":[{}]}}",
+                        "{{\"path\":{},\"kind\":{},\"span\":{},\"vis\":{},\"reach\":{},\"generics\":[{}],\"variants\":[{}]}}",
                         esc(&tcx.def_path_str(did)),
                         esc(&format!("{:?}", tcx.def_kind(did))),
                         esc(&sp),
                         esc(&format!("{:?}", tcx.visibility(did))),
+                        tcx.effective_visibilities(()).is_reachable(ld),
                         gens.join(","),
                         vs.join(",")
                     ));
@@ -603,10 +604,11 @@ impl rustc_driver::Callbacks for Cb {
                     let outp = cx.ty_id(sig.output());
                     let has_body = tcx.is_mir_available(did);
                     fns.push(format!(
-                        "{{\"q\":{},\"path\":{},\"vis\":{},\"unsafe\":{},\"inputs\":[{}],\"output\":{},\"span\":{},\"has_body\":{}}}",
+                        "{{\"q\":{},\"path\":{},\"vis\":{},\"reach\":{},\"unsafe\":{},\"inputs\":[{}],\"output\":{},\"span\":{},\"has_body\":{}}}",
                         esc(&cx.qname(did)),
                         esc(&tcx.def_path_str(did)),
                         esc(&format!("{:?}", tcx.visibility(did))),
+                        tcx.effective_visibilities(()).is_reachable(ld),
                         format!("{:?}", sig.safety()).contains("Unsafe"),
                         ins.join(","),
                         outp,
